@@ -410,7 +410,7 @@ func (r *run) judge(o judgeOpts) []finding {
 		if rq.keyed() || rq.Resp == nil {
 			continue
 		}
-		sig := map[string]string{"keyless": "keyless-affected", "safe-method": "safe-method-affected"}[rq.class()]
+		sig := unaffectedSig(rq.reqSpec, r.sc)
 		switch {
 		case len(rq.Entries) != 1:
 			add(sig+"|executions", fmt.Sprintf("request %d (%s) entered the handler %d times", rq.Idx, rq.class(), len(rq.Entries)))
@@ -421,6 +421,16 @@ func (r *run) judge(o judgeOpts) []finding {
 		}
 	}
 	return fs
+}
+
+// unaffectedSig: signature prefix for a request the middleware must leave alone. The class of
+// its key header is part of it when the header holds something the validator would reject.
+func unaffectedSig(q reqSpec, sc *scenario) string {
+	sig := q.class() + "-affected"
+	if q.Key != "" && !wellFormed(q.Key) && !sc.AnyKey {
+		sig += "|malformed-key"
+	}
+	return sig
 }
 
 // foreign: the successful execution of ANOTHER key that the answer of rq identifies (X-Exec).
